@@ -20,6 +20,51 @@ CHECKS = {
           "Generated-input search for panics, aborts, out-of-window writes and ill-formed successes over nine parsing entry points and output buffer lengths from 0 upward, in builds with and without overflow checks.",
           "Silent out-of-bounds reads are visible only to the ASan fuzz targets (thorough tier); hangs are reported as inconclusive by a watchdog.",
           "DESIGN.md section 4 C03"),
+  "C04": ("exploration",
+          "stateful property-based testing (proptest op sequences + interpreter): model map offset -> submitted bytes checked after every step of store/remove/delete/vanish/reopen histories that cross file-growth steps",
+          "Generated histories against a real Store in a scratch directory; every offset ever returned is re-read after every step (byte equality, pairwise distinct), untouched regular events are re-read by id, across growth and real reopen (LMDB environment closed and reopened).",
+          "Debug-assertion build (2048-byte chunks) in quick; release (4 MiB) added in thorough.",
+          "DESIGN.md section 4 C04"),
+  "C05": ("exploration",
+          "stateful property-based testing: generated history then generated filters from the same colliding pools; oracle = independent NIP-01 predicate over the retrievable set + screening table; newest-k multiset check; scraper-gate condition",
+          "Generated (history, filter, screen, allowances) cases; answer must equal the reference set exactly (no duplicates, newest first, newest-k by created_at multiset under limit, redacted flag only with cause, scraper refusal only when not covered).",
+          "Retrievable set taken from get_event_by_id (C09/C11/C18 decide whether it is right); tag names restricted to single ASCII letters for exactness.",
+          "DESIGN.md section 4 C05"),
+  "C09": ("exploration",
+          "stateful property-based testing with a per-address invariant checked after every step (at most one retrievable event per address via id, address lookup and query), replacement/refusal effect oracle per store; exhaustive enumeration of all 65,536 kinds",
+          "Generated histories concentrated on neighbouring addresses (NUL-extended, 182-byte-prefix-sharing, >182-byte d values); invariant and per-store effects checked after every step.",
+          "Equal timestamps leave the outcome free; parameterised events without d hold no address.",
+          "DESIGN.md section 4 C09"),
+  "C10": ("exploration",
+          "stateful property-based testing: deletion requests mixing own/foreign/absent/malformed targets at any position; invariant over every foreign retrievable event and address marker, plus an immediate remove+resubmit probe",
+          "Generated histories; after every kind-5 store (whatever it returns) every other author's retrievable event is still retrievable and byte-identical, their id/address markers are unchanged, and they are not refused as deleted when resubmitted.",
+          "Only events stored when the request arrives are protected.",
+          "DESIGN.md section 4 C10"),
+  "C11": ("exploration",
+          "stateful (model-based) property-based testing: reference model of accepted deletion requests (named ids, per-address maximum time); covered events unretrievable and refused, uncovered never refused, reported address deletion times monotone; continuations with real reopen and rebuild",
+          "Generated histories with several requests per id/address in non-monotone timestamp order and every arrival order relative to the covered events; model invariants checked after every step.",
+          "A request is accepted iff its store returned Ok; ids named by a foreign request while unknown to the store are unspecified.",
+          "DESIGN.md section 4 C11"),
+  "C12": ("exploration",
+          "stateful property-based testing: full observable snapshot (lookups, markers, ~25-80 queries over every index plan, ten index counts, extra tables) compared before/after every failing store in histories biased towards failures after in-transaction effects",
+          "Generated histories; snapshot(before) == snapshot(after) for every store that returns an error.",
+          "event_bytes excluded (orphan bytes of failed stores are unreachable).",
+          "DESIGN.md section 4 C12"),
+  "C16": ("exploration",
+          "stateful property-based testing: snapshot equality across real close+reopen and across rebuild (incl. repeated rebuilds), compaction bound, backup opened through a copy",
+          "Generated histories with Reopen/Rebuild at random positions; the full snapshot must be identical before/after, event_bytes within the padding bound, backup files present and equal to the pre-rebuild state.",
+          "Reopen closes the LMDB environment for real (heed caches environments by path otherwise).",
+          "DESIGN.md section 4 C16"),
+  "C17": ("exploration",
+          "stateful property-based testing: for every submitted event, every filter shape its own fields satisfy is cross-checked against get_event_by_id after every step; index entry counts against the retrievable count; drain-to-zero at the end",
+          "Generated histories over events with repeated/long/NUL/empty/multi-string tags; all access paths must agree after every step and all nine index counts must be zero after removing everything.",
+          "get_event_by_id defines 'retrievable'.",
+          "DESIGN.md section 4 C17"),
+  "C18": ("exploration",
+          "stateful property-based testing: independently computed target sets for remove/vanish (incl. gift-wrap near misses) compared with the change of the retrievable set; markers/extra tables unchanged; resubmission and ephemeral clauses",
+          "Generated histories; per Remove/Vanish the retrievable-set difference equals the reference target set, deletion markers and extra tables are unchanged, removed events are accepted again, ephemeral events are never retrievable.",
+          "vanish() receives an event of which only the pubkey matters.",
+          "DESIGN.md section 4 C18"),
   "C06": ("exploration",
           "property-based testing (proptest): differential against a hand-written NIP-01 predicate over small colliding pools, plus a metamorphic force-match / break-one-clause family",
           "Generated-input search over (filter, event) pairs; event_matches must equal the reference predicate for filters built from parts and parsed from JSON.",
